@@ -16,47 +16,6 @@ def newq_text : List String := [
   "return queue",
   "}"]
 
-def enq_text : List String := [
-  "func enq[A any](x *A, queue *queue[A]) {",
-  "val := queue.pool.Get().(*q[A])",
-  "val.value = x",
-  "val.next = nil",
-  "if queue.tail != nil {",
-  "queue.tail.next = val",
-  "}",
-  "queue.tail = val",
-  "if queue.head == nil {",
-  "queue.head = val",
-  "}",
-  "}"]
-
-def deq_text : List String := [
-  "func deq[A any](queue *queue[A]) *A {",
-  "val := queue.head",
-  "queue.head = val.next",
-  "if val == queue.tail {",
-  "queue.tail = nil",
-  "}",
-  "queue.pool.Put(val)",
-  "return val.value",
-  "}"]
-
-def head_text : List String := [
-  "func head[A any](queue *queue[A]) A {",
-  "if queue.head == nil {",
-  "return *new(A)",
-  "}",
-  "return *queue.head.value",
-  "}"]
-
-def emit_text : List String := [
-  "func emit[A any](ch chan<- A, queue *queue[A]) chan<- A {",
-  "if queue.head == nil {",
-  "return nil",
-  "}",
-  "return ch",
-  "}"]
-
 def Seq_text : List String := [
   "func Seq[T any](xs ...T) <-chan T {",
   "out := make(chan T, len(xs))",
